@@ -405,7 +405,7 @@ pub fn run(ctx: &Ctx) -> Report {
     // coverage-guided part: replay of the committed corpus (quick), libFuzzer campaign (thorough)
     crate::fuzzrun::replay_corpus("grammar", &mut total);
     if ctx.tier == Tier::Thorough && ctx.part.is_none() {
-        crate::fuzzrun::campaign("grammar", ctx.seed, 3_000_000, 8, 64, &mut total);
+        crate::fuzzrun::campaign("grammar", ctx.seed, 400_000, 8, 64, &mut total);
     }
     Report {
         stats: total,
